@@ -556,6 +556,10 @@ create_attr_path(struct attr_dict *dict, struct attr_data *dir,
 			break;
 		}
 
+	/* Children can be created only below a directory. */
+	if (endp != endpath && attr->template->type != KDUMP_DIRECTORY)
+		return NULL;
+
 	while (endp && endp != endpath) {
 		p = endp + 1;
 		endp = memchr(p, '.', endpath - p);
